@@ -136,7 +136,39 @@ fn s_codepage() -> Result<(), String> {
     if q.database_codepage() != CodePage::Windows1252 {
         return Err(format!("database code page after reopen is {:?}", q.database_codepage()));
     }
+    // a code-page change after a save re-encodes every string, also when nothing else touches the pool
+    for close in 0..3u8 {
+        let m = Medium::new();
+        let mut p = Package::create(PackageType::Installer, m.clone()).map_err(|e| e.to_string())?;
+        p.set_database_codepage(CodePage::Windows1252);
+        p.create_table("T", cols()).map_err(|e| e.to_string())?;
+        p.insert_rows(Insert::into("T").rows(vec![vec![Value::Int(1), Value::from("caf\u{e9}")], vec![Value::Int(2), Value::from("plain ascii")], vec![Value::Int(3), Value::from("\u{fc}ber")]]))
+            .map_err(|e| e.to_string())?;
+        p.flush().map_err(|e| e.to_string())?;
+        p.set_database_codepage(CodePage::Utf8);
+        match close {
+            0 => drop(p),
+            1 => {
+                p.flush().map_err(|e| e.to_string())?;
+                drop(p);
+            }
+            _ => {
+                p.into_inner().map_err(|e| e.to_string())?;
+            }
+        }
+        let mut q = Package::open(m.clone()).map_err(|e| format!("reopen after a code-page change failed: {}", e))?;
+        let got = rows_of2(&mut q, "T")?;
+        let want = vec![(Value::Int(1), Value::from("caf\u{e9}")), (Value::Int(2), Value::from("plain ascii")), (Value::Int(3), Value::from("\u{fc}ber"))];
+        if got != want || q.database_codepage() != CodePage::Utf8 {
+            return Err(format!("after changing the code page of a saved database (close mode {}) the rows read {:?} under {:?}", close, got, q.database_codepage()));
+        }
+    }
     Ok(())
+}
+
+fn rows_of2(p: &mut Package<Medium>, t: &str) -> Result<Vec<(Value, Value)>, String> {
+    let rows = p.select_rows(Select::table(t)).map_err(|e| format!("select failed: {}", e))?;
+    Ok(rows.map(|r| (r[0].clone(), r[1].clone())).collect())
 }
 
 /// rows inserted / updated / deleted are saved by each way of closing, incl. strings newly interned
